@@ -13,15 +13,15 @@ import bfg9000.depfixer as DF
 import bfg9000.tools.cc.compiler as CC
 
 
-NAMES = ['a.c', 'dir/b.h', 'my\\ header.h', 'x\\#y.h', 'p$$q.h', 'c\\:d.h', 'tab\\\tname.h']
+NAMES = ['a.c', 'dir/b.h', 'my\\ header.h', 'x\\#y.h', 'p$$q.h', 'c\\:d.h', 'tab\\\tname.h', 'p%q.h']
 SEPS = [' ', '  ', ' \\\n  ', '\t']
 
 
 class DepfixerReference(Bounded):
     """depfixer.emit_deps on generated gcc-style depfiles (grammar: `targets ':' deps` per logical line, names with
     backslash-escaped blanks / `#` / `:` and `$$`, separators blank / tab / backslash-newline continuation; up to two
-    rules, up to three dependencies from a pool of seven spellings): the output is exactly one `dep:` line per
-    dependency, spelled as in the input."""
+    rules, up to three dependencies from a pool of eight spellings): the output is exactly one `dep:` line per
+    dependency, spelled as in the input except that `%` (literal in a prerequisite, a pattern in a target) is escaped."""
     target = 'bfg9000/depfixer.py::emit_deps'
     properties = ('C07', 'C04')
     reason = 'tokenize() is an iterator with one-character lookahead (next() on a shared iterator): outside the subset'
@@ -49,7 +49,7 @@ class DepfixerReference(Bounded):
             DF.emit_deps(io.StringIO(text), out)
         except DF.ParseError as e:
             return self.fail(case, raw, 'well_formed_depfile_accepted', text=text, error=str(e))
-        exp = ''.join(d + ':\n' for d in want)
+        exp = ''.join(d.replace('%', '\\%') + ':\n' for d in want)
         if out.getvalue() != exp:
             return self.fail(case, raw, 'one_rule_per_dependency_spelled_as_given', text=text, output=out.getvalue(), expected=exp)
         return True
@@ -101,5 +101,107 @@ class CompilerCall(Contract):
         return out
 
 
+# ---- edit histories on a generated C project, built by the real cc through GNU make (bounded) -----------------------
+
+import os as _os
+
+SCENARIOS = {
+    # program name, header names (main.c includes h[0], which includes h[1])
+    'plain': ('prog', ['a.h', 'b.h']),
+    'blank-in-names': ('my prog', ['a b.h', 'c d.h']),
+    'make-specials': ('pro#g', ['x#y.h', 'p%q.h']),
+    'nested-dirs': ('out/bin/prog', ['inc/a.h', 'inc/deep/b c.h']),
+}
+
+
+class IncrementalBuild(Bounded):
+    """A generated C project (headers never mentioned in build.bfg; names with blanks and Make-special characters)
+    configured by the tree under test and built by the real compiler through GNU make, over an edit history: a second
+    build does nothing; changing a directly or transitively included header rebuilds the object; a header that is no
+    longer included can be deleted without stopping the build; clean followed by build recreates the program."""
+    target = 'bfg9000/builtins/compile.py::make_compile'
+    properties = ('C07',)
+    reason = 'external compiler, generated depfiles and make over a history of edits: runtime contract with the real tools'
+    native_chunk = 1
+
+    def native_inputs(self, case, alphabet, maxlen, rng, extra=0):
+        for k in SCENARIOS:
+            yield {'scenario': k}
+
+    def native_check(self, case, raw):
+        import shutil, subprocess, tempfile
+        from pyvc.interp import REPO
+        prog, hs = SCENARIOS[raw['scenario']]
+        top = tempfile.mkdtemp(prefix='pyvc_incr_')
+        try:
+            src, b = top + '/src', top + '/b'
+
+            def w(rel, text):
+                fp = src + '/' + rel
+                _os.makedirs(_os.path.dirname(fp), exist_ok=True)
+                with open(fp, 'w') as f:
+                    f.write(text)
+            w('build.bfg', "project('p')\nexecutable(%r, files=['main.c'])\n" % prog)
+            w('main.c', '#include "%s"\nint main(void) { return VALUE - 3; }\n' % hs[0])
+            rel = _os.path.relpath(hs[1], _os.path.dirname(hs[0]) or '.')
+            w(hs[0], '#include "%s"\n' % rel)
+            w(hs[1], '#define VALUE 3\n')
+            _os.makedirs(top + '/bin')
+            for name, mod in (('bfg9000', 'bfg9000.driver'), ('bfg9000-depfixer', 'bfg9000.depfixer')):
+                lp = top + '/bin/' + name
+                with open(lp, 'w') as f:
+                    f.write("#!/bin/sh\nPYTHONPATH=%s exec /venv/bin/python -c 'import sys; sys.argv[0] = \"%s\"; "
+                            "from %s import main; sys.exit(main())' \"$@\"\n" % (REPO, lp, mod))
+                _os.chmod(lp, 0o755)
+            env = dict(_os.environ, PATH=top + '/bin:/venv/bin:' + _os.environ['PATH'])
+            env.pop('MAKEFLAGS', None)
+
+            def run(cmd, **kw):
+                return subprocess.run(cmd, env=env, capture_output=True, text=True, timeout=300, **kw)
+
+            def make(*a):
+                r = run(['make', '-C', b] + list(a))
+                return r.returncode, r.stdout + r.stderr
+
+            def exit_of_prog():
+                return run([b + '/' + prog]).returncode
+            r = run([top + '/bin/bfg9000', 'configure-into', src, b, '--backend=make', '--no-resolve-packages'])
+            if r.returncode != 0:
+                return self.fail(case, raw, 'configure_succeeds', stderr=r.stderr[-500:])
+            rc, out = make()
+            if rc != 0 or exit_of_prog() != 0:
+                return self.fail(case, raw, 'first_build_succeeds', output=out[-600:])
+            rc, out = make()
+            if rc != 0 or 'cc ' in out:
+                return self.fail(case, raw, 'second_build_does_nothing', output=out[-400:])
+            # change the transitively included header (content and a clearly newer mtime)
+            w(hs[1], '#define VALUE 4\n')
+            t = _os.stat(b + '/' + prog).st_mtime + 100
+            _os.utime(src + '/' + hs[1], (t, t))
+            rc, out = make()
+            if rc != 0 or exit_of_prog() != 1:
+                return self.fail(case, raw, 'header_change_rebuilds_the_object', header=hs[1], output=out[-500:],
+                                 program_exit=exit_of_prog())
+            # stop including the headers and delete them in the same edit (the old depfile still names them)
+            _os.remove(src + '/' + hs[0])
+            _os.remove(src + '/' + hs[1])
+            w('main.c', '#define VALUE 5\nint main(void) { return VALUE - 5; }\n')
+            t += 100
+            _os.utime(src + '/main.c', (t, t))
+            rc, out = make()
+            if rc != 0 or exit_of_prog() != 0:
+                return self.fail(case, raw, 'deleted_header_that_is_no_longer_included_does_not_stop_the_build',
+                                 output=out[-500:])
+            rc, out = make('clean')
+            if rc != 0 or _os.path.exists(b + '/' + prog):
+                return self.fail(case, raw, 'clean_removes_the_program', output=out[-300:])
+            rc, out = make()
+            if rc != 0 or exit_of_prog() != 0:
+                return self.fail(case, raw, 'build_after_clean_recreates_the_program', output=out[-500:])
+            return True
+        finally:
+            shutil.rmtree(top, ignore_errors=True)
+
+
 def registry():
-    return [DepfixerReference(), CompilerCall()]
+    return [DepfixerReference(), CompilerCall(), IncrementalBuild()]
